@@ -13,9 +13,9 @@ CLAIMED = {
  "C04": ("C04.leader_commit_quorum_durable (commit advance only to an own-term entry held in the durable disk image of a majority of each voter set) and C04.follower_commit_bounded", "7 C04"),
  "C05": ("C05.log_matching (global registry (index,term)->(entry, previous term) must stay a function), C05.leader_append_only, C05.committed_prefix_immutable; pairwise full re-check every 256 actions", "7 C05"),
  "C06": ("C06.release_before_durable (every message released before its Ready is durable carries no undurable promise), C06.term_monotone, C06.one_vote_per_term_ever, C06.restart_not_behind", "7 C06"),
- "C07": ("C07.handoff_exact, C07.handoff_persisted_only, C07.persist_handoff, C07.must_sync, C07.has_ready_iff, LightReady.commit_index", "7 C07"),
+ "C07": ("C07.handoff_exact, C07.handoff_persisted_only, C07.persist_handoff (incl. the persist-once ghost: entries handed out for persistence exactly once), C07.must_sync, C07.has_ready_iff, LightReady.commit_index; scripted persistence-notice races", "7 C07"),
  "C08": ("C08.read_index_bound: every ReadState index >= the largest commit index any node had reached when the read was issued, returned only on the issuing node (Safe mode)", "7 C08"),
- "C19": ("C19.differential: the real MemStorage of every simulated disk is compared with an independent sequence model after every mutation the simulated application performs", "7 C19"),
+ "C19": ("C19.differential: the real MemStorage of every simulated disk is compared with an independent sequence model after every mutation the simulated application performs, and after every step of seeded what-if sequences of legal mutations applied to a scratch copy of a reached storage state (StorageExercise)", "7 C19"),
  "C20": ("C20.no_panic (every library call under catch_unwind, debug assertions and overflow checks on) and C20.local_and_stranger_rejected", "7 C20"),
 }
 
@@ -25,11 +25,11 @@ CLAIMED.update({
  "C10": ("C10.converges: after an arbitrary fault prefix the World itself runs a fair, fault-free suffix (operator heals, every member ticks, all messages delivered, prompt fsync/apply, snapshot reports delivered, a client keeps proposing); within 10 x 30 election timeouts exactly one leader among members, equal logs/commit, a fresh proposal applied everywhere; premise (running majority of each voter set) checked", "7 C10"),
  "C11": ("in situ: on every tracker state the simulated clusters reach, maximal_committed_index / tally_votes / has_quorum equal independent reference computations (plain and joint; group commit: <= quorum index always, exact when every voter has a group)", "7 C11"),
  "C12": ("in situ at every apply_conf_change, restart and snapshot install: C12.invariants, simple_changes_one_voter, error_is_atomic, matches_reference (model R), restore_roundtrip, quorum_overlap (brute force over subsets)", "7 C12"),
- "C13": ("C13.append_well_formed (every pending/emitted MsgAppend of the term vs the leader's log, heartbeat and snapshot commit bounds), size_limit, window, probe_one, snapshot_silence, uncommitted_bound (ghost accounting)", "7 C13"),
- "C14": ("C14.logical_log (first/last index, term(i) over the whole window, match_term, is_up_to_date, find_conflict_by_term on probes from the other nodes' logs, size-limited slices vs the sequence model) and C14.pointers, after every storage mutation and per call", "7 C14"),
- "C15": ("C15.install_guard, install_effect (state hash, configuration, boundary term, commit), fast_forward, send_only_if_needed, resume_after_report", "7 C15"),
+ "C13": ("C13.append_well_formed (every pending/emitted MsgAppend of the term vs the leader's log, heartbeat and snapshot commit bounds), size_limit, window (incl. requested-capacity ghost), probe_one (incl. probe-outstanding ghost), snapshot_silence (incl. snapshot-outstanding ghost), uncommitted_bound (ghost accounting); scripted scenario elected_before_persistence_is_reported", "7 C13"),
+ "C14": ("C14.logical_log (first/last index, term(i) over the whole window, match_term, is_up_to_date, find_conflict_by_term on probes from the other nodes' logs, size-limited slices vs the sequence model) and C14.pointers (incl. persisted index vs stable storage terms), after every storage mutation and per call", "7 C14"),
+ "C15": ("C15.install_guard, install_effect (state hash, configuration, progress map = members, boundary term, commit, acknowledged entries not discarded), fast_forward, send_only_if_needed, resume_after_report", "7 C15"),
  "C16": ("C16.prevote_request_is_readonly, C16.no_term_inflation, and the lock-step scenario C16.stable_majority_undisturbed (majority ticking in lock-step with all internal traffic delivered each tick, adversarial minority)", "7 C16"),
- "C17": ("C17.timeout_now_only_when_caught_up, no_proposals_while_transferring, abort_after_timeout, abort_when_removed, bad_target_ignored, completes_when_healthy (conditional, in the fair suffix)", "7 C17"),
+ "C17": ("C17.timeout_now_only_when_caught_up, no_proposals_while_transferring (incl. pending_until_resolved ghost), abort_after_timeout, abort_when_removed, bad_target_ignored, completes_when_healthy (conditional, in the fair suffix)", "7 C17"),
  "C18": ("in situ: the in-flight window of every (leader, follower) pair after every call, read through the cfg-guarded view: strictly increasing, within capacity, full() consistent, FIFO transition (old minus a prefix plus larger new), pending reduced capacity in force once drained", "7 C18"),
 })
 
@@ -78,7 +78,7 @@ def main():
         }],
         "checks": checks,
         "not_applicable": na,
-        "notes": "All checks share one engine and keep every monitor on (stop-at-first rule); only firings of the command's own property decide its exit code. known_findings.json lists fixed/open findings. See DESIGN.md.",
+        "notes": "All checks share one engine and keep every monitor on; a check runs in focus mode for its own property: firings of other properties' monitors are counted in the evidence and do not end the run (library panics and harness self-checks do), only firings of the command's own property decide its exit code. Besides the seeded random profile, a check replays the stored reproductions of the open known findings of its property and runs the scripted (PRNG-free) scenarios registered for it. known_findings.json lists fixed/open findings. See DESIGN.md section 13.",
     }
     json.dump(m, open('/verif/MANIFEST.json', 'w'), indent=1)
     print("claimed", len(checks), "not_applicable", len(na))
